@@ -5,6 +5,9 @@ open RV RV.Driver RV.Transform
 def outStr (o : Out Float) : String :=
   hxs ([o.m0, o.x0] ++ o.act ++ o.tst)
 
+def houtStr (o : HOut Float) : String :=
+  hxs ([o.com, o.x0] ++ o.act ++ o.tst)
+
 /-- `op nact ntst m0 x0 (m x)*nact x*ntst` -/
 def step (toks : List String) : String :=
   match toks with
@@ -26,6 +29,10 @@ def step (toks : List String) : String :=
       | "whdsInvVel" => outStr (whdsInvVel m0 x0 act tst)
       | "baryFwd" => outStr (baryFwd m0 x0 act tst)
       | "baryInv" => outStr (baryInv m0 x0 act tst)
+      | "hybFwdPos" => houtStr (hybFwdPos m0 x0 act tst)
+      | "hybFwdVel" => houtStr (hybFwdVel m0 x0 act tst)
+      | "hybInvPos" => houtStr (hybInvPos m0 x0 act tst)
+      | "hybInvVel" => houtStr (hybInvVel m0 x0 act tst)
       | _ => "bad-op"
   | _ => "bad-op"
 
